@@ -16,6 +16,16 @@ impl Clone for PartialModel {
     #[verifier::external_body]
     fn clone(&self) -> (r: PartialModel) { unimplemented!() }
 }
+// the derived `PartialEq`: an uninterpreted relation (nothing assumed), declared so that code comparing models can be read
+impl PartialEq for PartialModel {
+    #[verifier::external_body]
+    fn eq(&self, other: &Self) -> (b: bool)
+    { unimplemented!() }
+}
+impl vstd::std_specs::cmp::PartialEqSpecImpl for PartialModel {
+    open spec fn obeys_eq_spec() -> bool { true }
+    uninterp spec fn eq_spec(&self, other: &Self) -> bool;
+}
 
 #[verifier::external_body]
 pub struct BitSet { _p: u8 }
